@@ -9,7 +9,7 @@ import warnings
 from harness import vlib
 from harness.vlib import coq_str
 
-RT_THEOREMS = ["C20_model_roundtrip", "C20_model_roundtrip_single"]
+RT_THEOREMS = ["C20_model_roundtrip", "C20_model_roundtrip_single", "C20_fields_digest"]
 THEOREMS = ["C20_refs_closed", "C20_refs_closed_single", "C20_total", "C20_cyclic_diverges", "C20_cyclic_unranked",
             "C20_wf", "C20_wf_single", "C20_accumulate_refuted",
             "C20_K9_prefix", "C20_K9_dialect_defaults", "C20_K9_builder", "C20_K9_ref_names_key", "C20_K9_passed_context"]
@@ -265,11 +265,47 @@ def m_scalar(r):
         MT("bool", "TBool", [("True", "JBool true"), ("False", "JBool false")], True),
         MT("str", "TStr", [('"s"', 'JStr "s"'), ('""', 'JStr ""'), ('"$ref"', 'JStr "$ref"'), ('"\\u00e9"', "JStr " + coq_str("\u00e9"))], True),
         MT("Any", "TAny", [("7", "JInt 7"), ('"a"', 'JStr "a"')]),
-    ])
+    ] + M_LEAVES)
+
+
+UTC_PAT = r"^UTC([+-][0-2][0-9]:[0-5][0-9])?$"
+M_LEAVES = [
+    MT("datetime.datetime", 'TLeaf "string" (Some "date-time") None', [("datetime.datetime(2020, 1, 2, 3, 4, 5)", 'JStr "2020-01-02T03:04:05"')], True),
+    MT("datetime.date", 'TLeaf "string" (Some "date") None', [("datetime.date(2020, 2, 29)", 'JStr "2020-02-29"')], True),
+    MT("datetime.time", 'TLeaf "string" (Some "time") None', None, True),
+    MT("datetime.timedelta", 'TLeaf "number" (Some "time-delta") None', None, True),
+    MT("datetime.timezone", f'TLeaf "string" None (Some {coq_str(UTC_PAT)})', [("datetime.timezone.utc", 'JStr "UTC"')], True),
+    MT("zoneinfo.ZoneInfo", 'TLeaf "string" (Some "time-zone") None', None, True),
+    MT("uuid.UUID", 'TLeaf "string" (Some "uuid") None', [("uuid.UUID(int=0)", 'JStr "00000000-0000-0000-0000-000000000000"')], True),
+    MT("decimal.Decimal", 'TLeaf "string" (Some "decimal") None', [("decimal.Decimal('1.10')", 'JStr "1.10"')], True),
+    MT("fractions.Fraction", 'TLeaf "string" (Some "fraction") None', None, True),
+    MT("bytes", 'TLeaf "string" (Some "base64") None', None, True),
+    MT("ipaddress.IPv4Address", 'TLeaf "string" (Some "ipv4") None', [("ipaddress.IPv4Address('127.0.0.1')", 'JStr "127.0.0.1"')], True),
+    MT("ipaddress.IPv6Network", 'TLeaf "string" (Some "ipv6network") None', None, True),
+    MT("pathlib.PurePosixPath", 'TLeaf "string" (Some "path") None', [("pathlib.PurePosixPath('/a')", 'JStr "/a"')], True),
+    MT("ME1", 'TEnum false [JStr "a"; JInt 2]', [("ME1.A", 'JStr "a"'), ("ME1.B", "JInt 2")], True),
+    MT("ME0", 'TEnum false []', None, True),
+    MT("ME2", 'TEnum false [JInt 1; JInt 2]', [("ME2.X", "JInt 1")], True),
+    MT('Literal[1, "a", True, None]', 'TEnum true [JInt 1; JStr "a"; JBool true; JNull]', [("None", "JNull"), ("True", "JBool true")], True),
+    MT("Literal[0]", "TEnum true [JInt 0]", [("0", "JInt 0")], True),
+    MT("Literal[None]", "TEnum true [JNull]", [("None", "JNull")], True),
+    MT('Literal["", False]', 'TEnum true [JStr ""; JBool false]', [('""', 'JStr ""')], True),
+    MT("MT1", 'TTyped ["b"; "a"] [TInt; TWrap TStr] [true; false]', None, False),
+    MT("MT0", 'TTyped [] [] []', None, False),
+    MT("MT2", 'TTyped ["x"; "y"; "a"] [TWrap (TLeaf "string" (Some "date") None); TList TInt; TWrap (TEnum false [JStr "a"; JInt 2])] [true; false; true]', None, False),
+]
 
 
 M_PRELUDE = [
-    "import collections",
+    "import collections, datetime, decimal, enum, fractions, ipaddress, pathlib, uuid, zoneinfo",
+    "from typing_extensions import TypedDict, Required, NotRequired, Annotated",
+    "from mashumaro.types import Alias",
+    "class ME1(enum.Enum):\n    A = 'a'\n    B = 2",
+    "class ME0(enum.Enum):\n    pass",
+    "class ME2(enum.IntEnum):\n    X = 1\n    Y = 2",
+    "class MT1(TypedDict):\n    b: int\n    a: NotRequired[str]",
+    "class MT0(TypedDict):\n    pass",
+    "class MT2(TypedDict, total=False):\n    x: Required[datetime.date]\n    y: List[int]\n    a: Required[ME1]",
     "class N0(NamedTuple):\n    pass",
     "class N1(NamedTuple):\n    a: int\n    b: str = 'x'",
     "class N2(NamedTuple):\n    p: Optional[int] = None\n    q: Any = 7",
@@ -371,6 +407,7 @@ def m_family(r):
         seen_default = False
         refs[nm] = set()
         used_alias = set()
+        cfg_aliases = {}
         ntd = r.random() < 0.3       # Config.namedtuple_as_dict of the owner decides the form of every NamedTuple below it
         for j in range(nf):
             fname = r.choice(["a", "b", "x", "items", "type", "ref"]) + str(j)
@@ -396,12 +433,22 @@ def m_family(r):
             refs[nm].update(t.classes)
             if r.random() < 0.15:
                 t = MT(f"Final[{t.py}]", f"TWrap ({t.coq})", t.default, False, t.classes)
-            alias = None
-            if r.random() < 0.25:
-                alias = r.choice(["$ref", "$defs", "al" + str(j), "it's", "\u00e9" + str(j), "default"])
-                if alias in used_alias:
-                    alias = "al" + str(j)
-                used_alias.add(alias)
+            # alias sources: field metadata, Annotated Alias, Config.aliases (resolved in that order by the model), empty alias
+            meta_alias = ann_alias = cfg_alias = None
+            final = t.py.startswith("Final[")
+            x = r.random()
+            if x < 0.2:
+                meta_alias = r.choice(["$ref", "$defs", "al" + str(j), "it's", "\u00e9" + str(j), "default", ""])
+            if r.random() < 0.15 and not final:
+                ann_alias = r.choice(["an" + str(j), "$schema", "type"])
+            if r.random() < 0.15:
+                cfg_alias = r.choice(["cf" + str(j), "title", ""])
+            eff = meta_alias if meta_alias is not None else (ann_alias if ann_alias is not None else (cfg_alias if cfg_alias is not None else fname))
+            eff = eff or fname
+            if eff in used_alias:
+                meta_alias = ann_alias = cfg_alias = None
+                eff = fname
+            descr = r.choice([None, None, None, "d\u00e9scr 'q'", ""])
             kind = r.random()
             pyd = None
             jd = None
@@ -416,6 +463,12 @@ def m_family(r):
                 else:
                     pyd, jd = None, None      # default_factory: has default, nothing rendered
             seen_default = seen_default or has_default
+            init = not (has_default and r.random() < 0.12)
+            if init:
+                used_alias.add(eff)
+            if cfg_alias is not None:
+                cfg_aliases[fname] = cfg_alias
+            tpy = t.py if ann_alias is None else f"Annotated[{t.py}, Alias({ann_alias!r})]"
             parts = []
             if has_default:
                 if pyd is None:
@@ -423,18 +476,27 @@ def m_family(r):
                     parts.append(f"default_factory={fac}")
                 else:
                     parts.append(f"default={pyd}")
-            if alias is not None:
-                parts.append("metadata=field_options(alias=" + repr(alias) + ")")
+            if not init:
+                parts.append("init=False")
+            md = {}
+            if meta_alias is not None:
+                md["alias"] = meta_alias
+            if descr is not None:
+                md["description"] = descr
+            if md:
+                parts.append("metadata=" + repr(md))
             if parts:
-                body.append(f"    {fname}: {t.py} = field({', '.join(parts)})")
+                body.append(f"    {fname}: {tpy} = field({', '.join(parts)})")
             else:
-                body.append(f"    {fname}: {t.py}")
-            key = alias if alias is not None else fname
-            cflds.append(f"mkfld {coq_str(key)} ({t.coq}) {'false' if has_default else 'true'} "
-                         + (f"(Some ({jd}))" if jd is not None else "None"))
+                body.append(f"    {fname}: {tpy}")
+            oq = lambda v: "None" if v is None else f"(Some {coq_str(v)})"
+            rdef = "RNone" if not has_default else (f"(RDefault ({jd}))" if jd is not None else "RFactory")
+            cflds.append(f"mkrfld {coq_str(fname)} {oq(meta_alias)} {oq(ann_alias)} ({t.coq}) {'true' if init else 'false'} {rdef} {oq(descr)}")
         cfg = [f"        {o} = True" for o in ("omit_none", "omit_default", "serialize_by_alias") if r.random() < 0.3]
         if ntd:
             cfg.append("        namedtuple_as_dict = True")
+        if cfg_aliases:
+            cfg.append("        aliases = " + repr(cfg_aliases))
         if cfg:
             body.append("    class Config(BaseConfig):")
             body.extend(cfg)
@@ -443,7 +505,8 @@ def m_family(r):
         lines.append("@dataclass")
         lines.append(f"class {nm}:")
         lines.extend(body)
-        coq_classes.append(f'("{nm}", [' + "; ".join(cflds) + "])")
+        coq_classes.append(f'("{nm}", mkrcls [' + "; ".join(f"({coq_str(k)}, {coq_str(v)})" for k, v in cfg_aliases.items()) + "] ["
+                           + "; ".join(cflds) + "])")
 
     def reach_cyclic(root_classes):
         seen, stack = set(), list(root_classes)
